@@ -136,7 +136,8 @@ type scenario struct {
 	cfgMagic map[uint16]uint32 // the configured table: version -> magic
 }
 
-func indexKey(r *hs.Row) string { return r.ConfigKey() + "|" + r.ReplyKey() }
+// indexKey names configuration and reply within a window size (version W+1 of a 3-window is not version 4 of a 4-window).
+func indexKey(r *hs.Row) string { return fmt.Sprintf("W=%d|%s|%s", len(r.Cli), r.ConfigKey(), r.ReplyKey()) }
 
 // sentOf maps the proposal read off the wire back into the window: the
 // abstract versions of the configured table whose concrete version was sent.
